@@ -89,6 +89,19 @@ PROPS["C40"] = {
     "level_note": "Trusted: Kani/CBMC/cadical and the recording closures of the harness.",
 }
 
+PROPS["C20"] = {
+    "enc": ["SideMetadataSpec::load", "store", "load_atomic", "store_atomic", "set_zero", "set_zero_atomic", "compare_exchange_atomic", "fetch_add_atomic",
+            "fetch_sub_atomic", "fetch_and_atomic", "fetch_or_atomic", "fetch_update_atomic", "fetch_ops_on_bits", "side_metadata_access", "assert_value_type",
+            "address_to_meta_address", "address_to_contiguous_meta_address", "meta_byte_lshift", "meta_byte_mask", "MetadataValue impls", "Address::{load,store,atomic_load,compare_exchange}", "std atomics"],
+    "sym": "log_num_of_bits 0..=6 (sub-byte widths symbolic inside one harness, one harness per wider type), log_bytes_in_region 0..=22 symbolic, spec offset < 2^40, "
+           "all 16 bytes of the metadata window, region index anywhere in the window, byte offset inside the region, operation kind (13 kinds), operands / CAS old+new; two consecutive operations on independently chosen regions",
+    "bound": "Metadata window of 16 bytes (128 one-bit fields ... 2 64-bit fields); histories of 2 operations from an arbitrary window state (the frame oracle makes one step inductive; two steps exercise neighbour interference directly); 64-bit contiguous layout.",
+    "outside": "the 32-bit chunked layout (helpers_32.rs, not compiled); concurrent interleavings (C18); windows longer than 16 bytes (address arithmetic is shift-only and identical beyond)",
+    "assumptions": COMMON_ASSUME + ["E1: side-metadata base address installed through the verif_set_side_metadata_base hook so that the window is the table slice for the data range used", "operands fit the field width (the code's own assert_value_type)"],
+    "level_text": "Bounded symbolic execution (Kani/CBMC) of every SideMetadataSpec accessor on a real 16-byte table window for all widths 1..64 bits, all region sizes 2^0..2^22, all window contents, regions, operands and two-operation histories: each operation returns the previous value of its region's field and changes exactly that field (whole-window frame condition against a bit-string reference model).",
+    "level_note": "Trusted: Kani/CBMC/cadical, the 15-line bit-string reference model; single-thread semantics of atomics.",
+}
+
 NOT_APPLICABLE = {}
 _L = ("observable only on a live collector (MMTK instance, mmap'd heap, OS worker threads, VM call-backs); Kani has no thread/FFI model and a "
       "whole collection is outside any unwinding bound; the bit-level kernels are decided under ")
@@ -113,5 +126,5 @@ NOT_APPLICABLE.update({
     "C39": "DESIGN P11: 3 symbolic bytes through to_lowercase/parse/format! exceed 420 s; GCTriggerSelector::from_str compiles two regex::Regex",
 })
 # Claimed in DESIGN.md but not built yet: listed as not applicable until their check exists.
-for _p in ["C08", "C10", "C17", "C18", "C20", "C21", "C22", "C24", "C26", "C27", "C28", "C29", "C31", "C34", "C35", "C37", "C38"]:
+for _p in ["C08", "C10", "C17", "C18", "C21", "C22", "C24", "C26", "C27", "C28", "C29", "C31", "C34", "C35", "C37", "C38"]:
     NOT_APPLICABLE.setdefault(_p, "check planned in DESIGN.md section 3 but not built yet; not claimed until its harnesses are registered")
